@@ -65,7 +65,14 @@ RULE = ('one case = one history of 20-200 operations on one interpreter whose ca
         'the operations type-correct, the rest any operator x any operand kind; bare, as values (and T keys) of a dict '
         'spec, mapped over the rows by a list spec, in a tuple chain, under Coalesce with / without default, and Call '
         'specs / plain callable specs over a catalogue of non-mutating callables (len, ident, first, wrap, pair, list, '
-        'tuple) on T reads of the target; the '
+        'tuple) on T reads of the target; empty and non-empty list / dict / set literals (also nested in one another) in '
+        'every argument position of these specs (right operands, Coalesce defaults, Call arguments); the literal '
+        'containers of the spec are heap objects of the case too, and per call it is observed that none of them is '
+        'reachable from the result; after every call the caller appends to every container of the result that the '
+        'call created; (f) container literals in argument positions outside the heap model, each evaluated 2-3 times '
+        'with the result appended to in between: per-evaluation accumulators (S(acc=<lit>), [S.acc.append(T) | '
+        'S.acc.setdefault(T, T) | S.acc.add(T)], S.acc), T.get(k, <lit>), (S(x=<lit>), S.x), Coalesce(default=<lit>), '
+        'compared with the documented value and by the deep snapshot of the spec graph; the '
         'thorough tier also enumerates every operator x 8 left operand kinds x 9 right operand kinds, each '
         'evaluated twice; observed per call: the heap graph (every container by address = identity) of target and '
         'spec-owned objects before and after, the result as a graph (a mutable object that existed before by its '
@@ -467,34 +474,75 @@ CAT6 = {'len': len, 'ident': lambda x: x, 'first': lambda x: x[0], 'wrap': lambd
         'pair': lambda a, b: [a, b], 'list': list, 'tuple': tuple}
 
 
-def build_sp(j, dv):
-    """Sp JSON (see lean/Glom/Driver/C06.lean) -> the real spec object"""
+def build_sp(j, dv, lits=None):
+    """Sp JSON (see lean/Glom/Driver/C06.lean) -> the real spec object; `lits` collects the list / dict / set
+    objects made for the literals of the spec (objects arg_val rebuilds and AUTO interprets: glom must never
+    hand them out)"""
     import glom
+    B = lambda x: build_sp(x, dv, lits)
+
+    def keep(o):
+        if lits is not None and type(o) in (list, dict, set):
+            lits.append(o)
+        return o
     if 'lit' in j:
         if isinstance(j['lit'], dict) and 'fn' in j['lit']:
             return CAT6[j['lit']['fn']]
         return dv(j['lit'])
     if 'call' in j:
-        return glom.Call(CAT6[j['call']], args=tuple(build_sp(x, dv) for x in j['args']))
+        return glom.Call(CAT6[j['call']], args=tuple(B(x) for x in j['args']))
     if 't' in j:
         t = glom.T
         for op, arg in j['t']:
-            t = T_OPS[op](t, build_sp(arg, dv))
+            t = T_OPS[op](t, B(arg))
         return t
     if 'seq' in j:
-        return {'list': list, 'tuple': tuple, 'set': set, 'fset': frozenset}[j['seq']](build_sp(x, dv) for x in j['xs'])
+        return keep({'list': list, 'tuple': tuple, 'set': set, 'fset': frozenset}[j['seq']](B(x) for x in j['xs']))
     if 'dict' in j:
-        return {build_sp(k, dv): build_sp(v, dv) for k, v in j['dict']}
+        return keep({B(k): B(v) for k, v in j['dict']})
     if 'coalesce' in j:
-        kw = {} if j.get('default') is None else {'default': build_sp(j['default'], dv)}
-        return glom.Coalesce(*[build_sp(x, dv) for x in j['coalesce']], **kw)
+        kw = {} if j.get('default') is None else {'default': B(j['default'])}
+        return glom.Coalesce(*[B(x) for x in j['coalesce']], **kw)
     raise ValueError('bad Sp %r' % (j,))
 
 
 def build_arith(entry):
+    """-> target, spec, the objects of the heap by address followed by the literal containers of the spec"""
     a = entry['arith']
     objs, dv = decode6(a['heap'])
-    return dv(a['target']), build_sp(a['spec'], dv), objs
+    lits = []
+    sp = build_sp(a['spec'], dv, lits)
+    return dv(a['target']), sp, objs + [o for o in lits if not any(o is x for x in objs)], lits
+
+
+def reachable6(v, seen=None):
+    """every container reachable from a value through plain containers (by identity)"""
+    if seen is None:
+        seen = {}
+    if type(v) in CONT6 and id(v) not in seen:
+        seen[id(v)] = v
+        for x in Enc6._members(v):
+            reachable6(x, seen)
+    return seen
+
+
+MARK6 = '#caller-owns-the-result'
+
+
+def mutate_new6(res, enc):
+    """the caller owns the result: it appends to every mutable container of the result that the call created
+    (an object the encoder has never seen); a later evaluation must not show any of it"""
+    for o in list(reachable6(res).values()):
+        if enc.known(o) is not None:
+            continue
+        if type(o) is list:
+            o.append(MARK6)
+        elif type(o) is dict:
+            o[MARK6] = MARK6
+        elif type(o) is set:
+            o.add(MARK6)
+        elif type(o) is bytearray:
+            o.append(0)
 
 
 def _lit(v):
@@ -579,6 +627,8 @@ def right_operand(rng, kind, own, depth=0):
         return {'seq': rng.choice(['set', 'set', 'fset']),
                 'xs': [_lit(x) for x in sorted(set(rng.choice([0, 1, 2, 'a', 'b', 'q']) for _ in range(rng.randint(0, 3))), key=repr)]}
     if kind == 'dict':
+        if rng.random() < 0.25:
+            return {'dict': []}                                     # an empty dict literal
         return {'dict': [[_lit(rng.choice(['k', 'a', 'new'])), rng.choice([_lit(1), _path('n'), {'seq': 'list', 'xs': []}])]]}
     raise ValueError(kind)
 
@@ -591,6 +641,11 @@ def call_spec(rng):
     args = [_path(f)] if name != 'pair' or rng.random() < 0.1 else [_path(f), _path(rng.choice(['l', 'n']))]
     if rng.random() < 0.1:
         args.append(_lit(1))                                        # wrong arity
+    if rng.random() < 0.35:                     # a literal (empty or not) as argument of the call
+        lit = rng.choice([{'seq': 'list', 'xs': []}, {'dict': []}, {'seq': 'list', 'xs': [_lit(1)]},
+                          {'seq': 'list', 'xs': [{'seq': 'list', 'xs': []}]}, {'dict': [[_lit('k'), {'dict': []}]]}])
+        name = rng.choice(['ident', 'wrap', 'len', 'list'])
+        args = [lit]
     aslist = rng.choice([{'call': 'wrap', 'args': [_path(rng.choice(['n', 'l']))]},
                          {'call': 'list', 'args': [_path(rng.choice(['l', 't', 'd']))]},
                          {'call': 'pair', 'args': [_path('n'), _path('l')]}])
@@ -653,11 +708,68 @@ def arith_entry(rng, combo=None):
         subs = [chain() for _ in range(rng.randint(1, 2))]
         if rng.random() < 0.5:
             subs.insert(0, _path('missing'))
-        dflt = rng.choice([None, {'seq': 'list', 'xs': [_lit(0)]}, _path('l'), {'lit': {'r': own(bytearray(b'd'))}}])
+        if rng.random() < 0.5:
+            subs = [_path('missing')]               # every alternative fails: the default is the result
+        dflt = rng.choice([None, {'seq': 'list', 'xs': [_lit(0)]}, _path('l'), {'lit': {'r': own(bytearray(b'd'))}},
+                           {'seq': 'list', 'xs': []}, {'dict': []}, {'seq': 'set', 'xs': []},
+                           {'dict': [[_lit('tags'), {'seq': 'list', 'xs': []}]]},
+                           {'seq': 'list', 'xs': [{'dict': []}, {'seq': 'list', 'xs': []}]}])
         spec = {'coalesce': subs, 'default': dflt}
     else:
         spec = {'seq': 'tuple', 'xs': [_path('nest'), arith_chain(rng, own, field=rng.choice(['l', 's']))]}
     return {'arith': {'heap': enc.heap(alloc=True), 'target': tv, 'spec': spec}}
+
+
+# ------------------------------------------------------------------ container literals in argument positions outside the
+# heap model: per-evaluation accumulators bound through S(), T-call arguments, scope values, Coalesce defaults
+def acc_entry(rng):
+    """a container literal (empty or not, possibly nested in a non-empty one) in an argument position:
+    'scope' = (S(acc=<lit>), [S.acc.append(T) | S.acc.setdefault(T, T) | S.acc.add(T)], S.acc): an accumulator that
+    lives in the scope of ONE evaluation; 'tget' = T.get('missing', <lit>); 'sval' = (S(x=<lit>), S.x);
+    'coalesce' = Coalesce('missing', default=<lit>).  arg_val rebuilds the literal per evaluation: the result is
+    the caller's, no object of the spec is reachable from it, and nothing of one evaluation survives into the next."""
+    kind = rng.choice(['list', 'list', 'dict', 'set'])
+    form = rng.choice(['scope', 'scope', 'tget', 'sval', 'coalesce'])
+    return {'acc': {'kind': kind, 'form': form,
+                    'prefill': [] if rng.random() < 0.6 else [rng.choice(['p', 'q'])],
+                    'items': [rng.choice(['a', 'b', 'c', 'd']) for _ in range(rng.randint(1, 3))],
+                    'nested': form != 'scope' and rng.random() < 0.3}}
+
+
+def _acc_value(a, extra=()):
+    xs = list(a['prefill']) + list(extra)
+    v = {'list': lambda: list(xs), 'dict': lambda: {x: x for x in xs}, 'set': lambda: set(xs)}[a['kind']]()
+    return {'tags': v, 'n': 1} if a['nested'] else v
+
+
+def build_acc(a):
+    """-> target, spec, the value the constructs document"""
+    import glom
+    from glom import T, S
+    lit = _acc_value(a)
+    if a['form'] == 'scope':
+        step = {'list': lambda: S.acc.append(T), 'dict': lambda: S.acc.setdefault(T, T), 'set': lambda: S.acc.add(T)}[a['kind']]()
+        return list(a['items']), (S(acc=lit), [step], S.acc), _acc_value(a, a['items'])
+    if a['form'] == 'tget':
+        return {'name': 'n'}, T.get('missing', lit), _acc_value(a)
+    if a['form'] == 'sval':
+        return list(a['items']), (S(x=lit), S.x), _acc_value(a)
+    return {'name': 'n'}, glom.Coalesce('missing', default=lit), _acc_value(a)
+
+
+def mutate_result(res, keep):
+    """the caller owns the result: append to every mutable container reachable from it, except the objects of `keep`
+    (what is reachable from the target)"""
+    old = reachable6(keep)
+    for o in list(reachable6(res).values()):
+        if id(o) in old:
+            continue
+        if type(o) is list:
+            o.append(MARK6)
+        elif type(o) is dict:
+            o[MARK6] = MARK6
+        elif type(o) is set:
+            o.add(MARK6)
 
 
 def arith_combos():
@@ -1042,7 +1154,8 @@ def generate(rng, tier, scale, **focus):
         per = -(-len(combos) // n) if combos else 0
         ariths += [arith_entry(rng, c) for c in combos[i * per:(i + 1) * per]]
         names = PY_NAMES
-        entries = [{'target': t, 'spec': s} for t, s in pl] + [{'py': nm} for nm in names] + holders + objs + ariths
+        accs = [acc_entry(rng) for _ in range(4)]
+        entries = [{'target': t, 'spec': s} for t, s in pl] + [{'py': nm} for nm in names] + holders + objs + ariths + accs
         i_py, i_hold, i_obj = len(pl), len(pl) + len(names), len(pl) + len(names) + len(holders)
         i_ar = i_obj + len(objs)
         counter = [0]
@@ -1088,6 +1201,11 @@ def generate(rng, tier, scale, **focus):
         # every arith entry is evaluated, the enumerated ones twice (the second evaluation sees what the first left)
         for x in range(i_ar, len(entries)):
             for _ in range(1 if x < i_ar + 6 else 2):
+                ops.insert(rng.randrange(len(ops) + 1), {'op': 'glom', 'idx': x})
+        # container literals in argument positions (accumulators through S(), T-call arguments …): each evaluated
+        # two or three times (the result of every evaluation is appended to by the caller)
+        for x in range(len(entries) - len(accs), len(entries)):
+            for _ in range(rng.randint(2, 3)):
                 ops.insert(rng.randrange(len(ops) + 1), {'op': 'glom', 'idx': x})
         # raise_exc=False, (sometimes another op in between), raise_exc=True: the same (type, op), the same registry
         for qa, qb in quiet_pairs:
@@ -1334,7 +1452,7 @@ def fresh_outcome(args):
     sys.path.insert(0, repo)
     from harness import interp_common as ic2
     if tj == 'ARITH-ENTRY':               # an arith entry (sj)
-        t, s, _ = build_arith(sj)
+        t, s, _, _ = build_arith(sj)
         return outcome(t, s, star, encode=tree6)
     fns = {}
     return outcome(ic2.dec(tj, fns), ic2.build(sj, fns), star)
@@ -1429,9 +1547,12 @@ def run_impl(case):
         if 'py' in entry:
             tb, sb, _ = _py_pool()[entry['py']]
             return (tb(), sb(), None, None)
+        if 'acc' in entry:
+            t, sp, _ = build_acc(entry['acc'])
+            return (t, sp, None, None)
         if 'arith' in entry:
-            t, sp, aobjs = build_arith(entry)
-            arith_objs[id(sp)] = aobjs           # (the spec object is kept alive by the caller)
+            t, sp, aobjs, alits = build_arith(entry)
+            arith_objs[id(sp)] = (aobjs, alits)  # (the spec object is kept alive by the caller)
             return (t, sp, None, None)
         fns = {}
         t = dec_o(entry['otarget'], klasses, fns) if 'otarget' in entry else ic.dec(entry['target'], fns)
@@ -1495,7 +1616,7 @@ def run_impl(case):
                 if 'arith' in entry:
                     # every object of the case (the target's containers, the containers the spec holds) by
                     # address = identity, as they are right now
-                    enc6 = Enc6().preload(arith_objs[id(s)])
+                    enc6 = Enc6().preload(arith_objs[id(s)][0])
                     heap_before = enc6.heap()
                 before = (snapshot(t), repr(s), snapshot(s) if isinstance(s, (list, tuple, dict)) else None,
                           deep_snapshot(t))
@@ -1509,7 +1630,15 @@ def run_impl(case):
                                   'impl_out': {'ok': enc6.graph(resbox[0])} if resbox else {'err': oc.get('err')},
                                   # (identity of a *mutable* object: an immutable one may be shared freely)
                                   'impl_result_old': bool(resbox) and type(resbox[0]) not in (tuple, frozenset)
-                                  and enc6.known(resbox[0]) is not None}
+                                  and enc6.known(resbox[0]) is not None,
+                                  # no list / dict / set literal of the spec may be reachable from the result
+                                  'impl_spec_literal_in_result': bool(resbox) and any(
+                                      any(o is l for l in arith_objs[id(s)][1]) for o in reachable6(resbox[0]).values())}
+                if 'acc' in entry and 'tidx' not in op:
+                    # the value the constructs document, whatever came before; then the caller uses its result
+                    o['same_as_expected'] = (oc.get('ok') == ic.enc(build_acc(entry['acc'])[2]))
+                    if resbox:
+                        mutate_result(resbox[0], t)
                 after = (snapshot(t), repr(s), snapshot(s) if isinstance(s, (list, tuple, dict)) else None,
                          deep_snapshot(t))
                 o['inputs_unchanged'] = (before == after)
@@ -1572,6 +1701,8 @@ def run_impl(case):
                 if vo is not None:
                     o['vars'] = vo
                 o['same_as_fresh'] = None
+                if 'arith' in entry and resbox:
+                    mutate_new6(resbox[0], enc6)     # the caller owns the result; later evaluations must not see it
                 if budget > 0 and not reg_hist[0] and r == 0 and 'target' in entry and 'holder' not in entry \
                         and 'tidx' not in op:
                     budget -= 1
